@@ -53,6 +53,12 @@ func New(
 func (vm *VotingMachine) CollectVote(vote hotstuff.VoteMsg) {
 	cert := vote.PartialCert
 	vm.logger.Debugf("CollectVote(from %d): %s", vote.ID, cert.BlockHash().SmallString())
+	if sig := cert.Signature(); sig == nil || sig.Participants().Len() != 1 {
+		// a vote is the signature of exactly one replica; an aggregate would later
+		// overlap with that replica's own vote and make the QC impossible to assemble.
+		vm.logger.Infof("vote from %d is not a single signature", vote.ID)
+		return
+	}
 	var (
 		block *hotstuff.Block
 		ok    bool
